@@ -235,6 +235,7 @@ func (e *fnEnc) loopInvariantTerm(li *loopInfo, v ssa.Value) func() string {
 }
 
 type fnEnc struct {
+	loadDefs map[string]string // names defined as a load of a reference / slice from a memory
 	reachAt map[*ssa.BasicBlock]string // reachability of each block at its entry
 	transDone bool // the reflexive/transitive obligations of [transitive:] postconditions were emitted
 	V        *Verifier
@@ -371,6 +372,12 @@ func (e *fnEnc) define(prefix string, s *Sort, term string) string {
 		}
 	}
 	e.emit(fmt.Sprintf("(define-fun %s () %s %s)", n, s.name, term))
+	if (s.kind == skRef || s.kind == skSlice) && strings.HasPrefix(term, "(select H") {
+		if e.loadDefs == nil {
+			e.loadDefs = map[string]string{}
+		}
+		e.loadDefs[n] = term
+	}
 	return n
 }
 
